@@ -36,6 +36,32 @@ func (c01) Info() core.Info {
 
 func (c01) Plan(tier string) core.Plan { return core.Plan{Shards: 16} }
 
+// giantSizes: input lengths just beyond powers of two up to 2 MiB (quick) / 16 MiB (thorough).
+func giantSizes(tier string) []int {
+	s := []int{1<<16 + 1, 1<<20 + 1, 1<<21 + 1}
+	if tier == "thorough" {
+		s = append(s, 1<<22+1, 1<<24+1)
+	}
+	return s
+}
+
+type giantShape struct {
+	prefix, frag, suffix, base string
+}
+
+func (g giantShape) build(n int) string {
+	return g.prefix + strings.Repeat(g.frag, n/len(g.frag)+1) + g.suffix
+}
+
+// shapes whose cost in the reference model is linear (many short segments / pairs)
+var giantShapes = []giantShape{
+	{prefix: "http://h", frag: "/a"},
+	{prefix: "http://h/?", frag: "a=b&"},
+	{prefix: "a:", frag: "/a", suffix: "?q#f"},
+	{prefix: "", frag: "a/", base: "http://h/x/y?q"},
+	{prefix: "file:///C:", frag: "/a/.."},
+}
+
 const fileAlphabet = "c|:/\\.?#"
 
 var fileBases = []struct {
@@ -81,6 +107,16 @@ func (m c01) Run(ctx *core.Ctx) {
 			ctx.Begin(cs)
 			m.Exec(ctx, cs)
 		}
+	}
+	// a few giant inputs just beyond power-of-two sizes (input-size guards, buffer thresholds)
+	for k, size := range giantSizes(ctx.Tier) {
+		if k%ctx.NShards != ctx.Shard%len(giantSizes(ctx.Tier)) && ctx.NShards > 1 && (k+ctx.Shard)%4 != 0 {
+			continue
+		}
+		shape := giantShapes[(k+ctx.Shard)%len(giantShapes)]
+		cs := &core.Case{Check: "giant", Input: core.S(shape.build(size)), Base: core.S(shape.base), HasBase: shape.base != ""}
+		ctx.Begin(cs)
+		m.Exec(ctx, cs)
 	}
 	n := split(tierN(ctx.Tier, 1_000_000, 40_000_000), ctx.Shard, ctx.NShards)
 	for i := int64(0); i < n; i++ {
